@@ -112,7 +112,6 @@ static fibre_t fibres[MAXF];
 static uint32_t cur_t32;		/* time handed to the pass in progress */
 static int sc_a1, sc_a2, sc_ret;	/* script for the fibre dispatched by the pass in progress */
 static struct { int n, who, entered, self_ok, nres, res[2]; } dl;	/* dispatch log of the pass in progress */
-static int in_dispatch;
 
 static int fidx(const fibre_t *f)
 {
@@ -156,8 +155,9 @@ static int body(fibre_t *f)
 
 /* ------------------------------------------------------------- reporting */
 
-static uint64_t foreign_divergences, scope_skips;
-static int in_probe;
+static uint64_t foreign_divergences;
+static int in_probe, in_setup;
+static const char *cfgname = "";
 static uint64_t n_ops_kind[8];
 
 /* returns 1 if the branch must end (implementation and model have diverged) */
@@ -165,7 +165,13 @@ __attribute__((format(printf, 4, 5)))
 static int diverge(int owners, int stop, const char *clause, const char *fmt, ...)
 {
 	va_list ap; va_start(ap, fmt); char *m = vx_vfmt(fmt, ap); va_end(ap);
-	if (owners & MY_OWN) {
+	if ((owners & MY_OWN) && in_setup) {
+		/* the start state of this configuration could not even be built */
+		char sig[160], rpl[160];
+		snprintf(sig, sizeof(sig), "%s+setup|%s|", clause, cfgname);
+		snprintf(rpl, sizeof(rpl), "config=%s\nops=\n", cfgname);
+		vx_violation(sig, rpl, "%s: %s -- while building the start state of %s (run_atomic + pass cycles, then pre-fill)", clause, m, cfgname);
+	} else if (owners & MY_OWN) {
 		char cl[96]; snprintf(cl, sizeof(cl), "%s%s", clause, in_probe ? "+probe" : "");
 		vx_bfs_fail(cl, "%s", m);
 	} else {
@@ -510,8 +516,9 @@ static void build_configs(void)
 #endif
 }
 
-static void setup(const config_t *c)
+static int setup(const config_t *c)
 {
+	cfgname = c->name;
 	NF = c->nf; base = c->base; aq_limit = c->aq_limit; allow2 = c->allow2;
 	ND = c->ndelta; memcpy(deltas, c->deltas, sizeof(deltas));
 	NDT = c->ndt; memcpy(dts, c->dts, sizeof(dts));
@@ -530,19 +537,23 @@ static void setup(const config_t *c)
 	messageq_init(&kernel.atomic_runq, atomic_runq_buf, sizeof(atomic_runq_buf), sizeof(atomic_runq_buf[0]));
 	for (int i = 0; i < MAXF; i++) fibre_init(&fibres[i], body);
 	memset(&Mo, 0, sizeof(Mo)); Mo.cur = -1; Mo.last_ret = 0;
-	/* position the clock with one idle pass (checked like any other) */
-	sc_a1 = sc_a2 = 0; sc_ret = PT_WAITING;
-	uint32_t w = fibre_scheduler_next(base);
-	if (w != base + 0x7fffffffu || fibre_self()) { fprintf(stderr, "sched harness: initial idle pass misbehaves\n"); _exit(6); }
-	/* advance the cursors of the 8-slot atomic queue, then pre-fill it */
-	for (int i = 0; i < c->cursor_adv; i++) {
-		if (!fibre_run_atomic(&fibres[0]) || !fibre_kill(&fibres[0])) { fprintf(stderr, "sched harness: cursor advance failed\n"); _exit(6); }
+	/* Build the start state with checked operations: position the clock with one idle
+	 * pass, advance the cursors of the 8-slot atomic queue (request + pass that
+	 * dispatches it), then pre-fill the queue. Any misbehaviour is a violation. */
+	in_setup = 1;
+	int bad = 0, save_limit = aq_limit;
+	aq_limit = 9;
+	dts[NDT] = 0;
+	bad = do_next(NDT, 0, 0, PT_WAITING);
+	for (int i = 0; i < c->cursor_adv && !bad; i++) {
+		bad = op_apply(NF + 0);
+		if (!bad) bad = do_next(NDT, 0, 0, PT_EXITED);
 	}
-	for (int i = 0; i < c->prefill; i++) {
-		int f = i % NF;
-		if (!fibre_run_atomic(&fibres[f])) { fprintf(stderr, "sched harness: prefill refused at %d\n", i); _exit(6); }
-		Mo.aq[Mo.naq++] = (int8_t)f;
-	}
+	if (c->cursor_adv && !bad) bad = do_next(NDT, 0, 0, PT_WAITING);	/* idle pass: nothing current any more */
+	for (int i = 0; i < c->prefill && !bad; i++) bad = op_apply(NF + i % NF);
+	aq_limit = save_limit;
+	in_setup = 0;
+	return bad;
 }
 static const config_t *curcfg;
 static int enabled_wrap(int op)
@@ -565,7 +576,9 @@ int main(int argc, char **argv)
 	if (rp) {
 		const char *cn = vx_replay_field(rp, "config");
 		for (int i = 0; i < nconfigs; i++) if (cn && !strcmp(cn, configs[i].name)) {
-			curcfg = &configs[i]; setup(curcfg); b.name = curcfg->name; b.nops = nops_total;
+			curcfg = &configs[i]; b.name = curcfg->name;
+			if (setup(curcfg)) break;
+			b.nops = nops_total;
 			probe_depth = -1;
 			if (vx_bfs_replay(&b, rp) == 0) { probe_depth = 0; probe(0); }	/* the failure may sit in the frontier probe */
 		}
@@ -574,7 +587,8 @@ int main(int argc, char **argv)
 	}
 	for (int i = 0; i < nconfigs; i++) {
 		if (!vx_mine((uint64_t)i)) continue;
-		curcfg = &configs[i]; setup(curcfg);
+		curcfg = &configs[i];
+		if (setup(curcfg)) { vx_and("exhaustive", 0); continue; }
 		b.name = curcfg->name; b.nops = nops_total;
 		b.max_depth = vx_thorough() ? curcfg->depth_thorough : curcfg->depth_quick;
 		probe_depth = b.max_depth;
